@@ -1,6 +1,6 @@
 SPECIFICATION Spec
 CONSTANTS NameOrder <- MCNameOrder
-          NNames = 3
+          NNames = 2
           Targets = {1, 2}
           Tsizes = {0}
           DataVals = {"nil", "empty", "x"}
